@@ -141,7 +141,7 @@ def _costs(draw, labelled, coherent=True):
 @st.composite
 def _input(draw, labelled, max_obj, max_sp, max_fam, polytomy=False, coherent=True,
            min_obj=1, single_family=False, chain=False, case_pairs=False,
-           underscore_names=False):
+           underscore_names=False, min_fam=1):
     if chain:
         # swarm mode "deep chain": a 5-leaf caterpillar over 2-3 species - the shape on which
         # inheritance chains of the unordered model and path-dependent decoding live
@@ -191,7 +191,8 @@ def _input(draw, labelled, max_obj, max_sp, max_fam, polytomy=False, coherent=Tr
         spec["colors"] = {str(draw(st.integers(0, 2 * nobj))): draw(st.sampled_from(
             ["ff0000", "00aa00", "000000"])) for _ in range(draw(st.integers(1, 2)))}
     if labelled:
-        nfam = 1 if single_family else draw(st.integers(3 if chain else 1, max_fam))
+        nfam = 1 if single_family else draw(st.integers(
+            max(min_fam, 3 if chain else 1), max_fam))
         # plain letters, or names whose text order, natural order and case-insensitive order
         # all differ (g10 < g2 as text, B < a as text)
         fams = (FAMILIES if draw(st.integers(0, 2)) else TRICKY_FAMILIES)[:nfam]
@@ -234,6 +235,7 @@ def _case(draw, pid, tier):
     polytomy = False
     coherent = True
     single_family = False
+    min_fam = 1
     if pid == "C01":
         labelled, algos = False, ["thl", "thl", "exh"]
     elif pid == "C02":
@@ -277,6 +279,11 @@ def _case(draw, pid, tier):
             max_obj, max_fam = 5, 4
             if pid == "C05":
                 algos = ["superdtl", "base_uspfs"]
+        elif pid in ("C02", "C05") and labelled and draw(st.integers(0, 5)) == 0:
+            # swarm mode "wide syntenies": few nodes, five or six families - segment
+            # distances over parent syntenies with holes wider than one position
+            max_obj, max_sp, max_fam = 3, 2, 6
+            min_fam = 5
     else:
         max_obj, max_sp, max_fam = (8, 7, 4) if not labelled else (6, 5, 3)
     if polytomy:
@@ -290,7 +297,7 @@ def _case(draw, pid, tier):
     inputs = [
         draw(_input(labelled, max_obj, max_sp, max_fam, polytomy, coherent,
                     min_obj=2 if pid in ("C08",) else 1, single_family=single_family,
-                    chain=chain, case_pairs=True, underscore_names=True))
+                    chain=chain, case_pairs=True, underscore_names=True, min_fam=min_fam))
         for _ in range(ninputs)
     ]
     ops = []
@@ -497,6 +504,8 @@ def oracle_size_ok(spec, mode):
     if mode is None:
         return nobj <= 5 and nsp <= 6
     nfam = len(set().union(*map(set, spec["syn"].values())))
+    if nobj <= 3 and nsp <= 2:
+        return nfam <= 6
     return nobj <= 5 and nsp <= 4 and nfam <= 4
 
 
@@ -592,6 +601,15 @@ def check_outputs(run, slot, algo, policy, outs, where, regime):
                 run.check(leaf_syn == {k: list(v) for k, v in spec["syn"].items()},
                           ("C08",), "C08.leaf-data",
                           lambda: f"{where}: leaf syntenies of the refined input {leaf_syn}")
+                # a prescribed root synteny is input data too: it must reach every resolution
+                root_syn = out.input.leaf_syntenies.get(out.input.object_tree)
+                want_root = spec["root_order"]
+                run.check((root_syn is None and want_root is None) or
+                          (root_syn is not None and want_root is not None
+                           and list(root_syn) == list(want_root)),
+                          ("C08",), "C08.root-synteny-lost",
+                          lambda: f"{where}: the refined input prescribes root synteny "
+                                  f"{root_syn}, the caller's input {want_root}")
         if not bin_ok:
             continue
         rin = slot.ref_input(on, sn)
